@@ -74,6 +74,47 @@ pub fn run(seed: u64, thorough: bool, rep: &mut Report) {
         if k2 != k && decrypt(&c, &k2).is_ok() {
             rep.fail("C17", "other_id_decrypts", "a blob decrypted under a different id");
         }
+        // ids close to the right one: one bit flipped anywhere, same locator (first 16 bytes) with another tail,
+        // same tail with another head, byte-reversed — used after the right id has been (the order a cache would need)
+        {
+            use bitcoin::hashes::Hash;
+            let kb = k.to_byte_array();
+            let mut near: Vec<[u8; 32]> = vec![];
+            for _ in 0..4 {
+                let mut b = kb;
+                b[rng.below(32) as usize] ^= 1 << rng.below(8);
+                near.push(b);
+            }
+            let mut b = kb;
+            b[31] ^= 0xff;
+            near.push(b); // same locator, last byte differs
+            let mut b = kb;
+            for x in b[16..].iter_mut() {
+                *x = rng.below(256) as u8;
+            }
+            near.push(b); // same locator, other tail
+            let mut b = kb;
+            for x in b[..16].iter_mut() {
+                *x = rng.below(256) as u8;
+            }
+            near.push(b); // other locator, same tail
+            let mut b = kb;
+            b.reverse();
+            near.push(b);
+            for b in near {
+                if b == kb {
+                    continue;
+                }
+                rep.count("near-id");
+                let k3 = bitcoin::Txid::from_byte_array(b);
+                if decrypt(&c, &k3).is_ok() {
+                    rep.fail("C17", "other_id_decrypts", &format!("a blob decrypted under a different id ({} of the 32 bytes differ)", b.iter().zip(kb.iter()).filter(|(x, y)| x != y).count()));
+                }
+                if encrypt(&tx, &k3).ok() == Some(c.clone()) {
+                    rep.fail("C17", "other_id_same_ciphertext", "encrypting under a different id gives the same ciphertext");
+                }
+            }
+        }
         // single-bit flips, truncation, extension
         for _ in 0..6 {
             let mut m = c.clone();
